@@ -50,6 +50,7 @@ def correct_last_timing(c):
 
 TEXTS = ["HELLO THERE", "GENERAL KENOBI", "YOU ARE A BOLD ONE", "OK", "A", "it's 5 o'clock.", "One, two!", "x y z",
          "THE QUICK BROWN FOX JUMPS", "over", "12345 67890",
+         "Seg\u00fan el men\u00fa", "\u00e1\u00e9\u00ed\u00f3\u00fa \u00e7\u00f7\u00d1\u00f1\u2588", "[ab]=c/d; e+f<g>h? #1 $2 %3 &4@6", "(5) \"q\" it's: x-y, z.",
          "A ROW OF EXACTLY THIRTY-TWO CHAR", "thirty-one characters in this row"[:31], "ABCDEFGHIJKLMNOPQRSTUVWXYZ012345"]
 assert [len(t_) for t_ in TEXTS[-3:]] == [32, 31, 32]
 
@@ -58,8 +59,8 @@ def norm(s):
     return " ".join(s.split())
 
 
-def rollup_doc(rng, depth, rows, texts, dbl, drop, gaps, ru_every_line):
-    lines, t = [], 40
+def rollup_doc(rng, depth, rows, texts, dbl, drop, gaps, ru_every_line, t0=40):
+    lines, t = [], t0
     ctl = lambda w: [w, w] if dbl else [w]
     ru = C.ctrl({2: "RU2", 3: "RU3", 4: "RU4"}[depth])
     for i, (row, text) in enumerate(zip(rows, texts)):
@@ -70,8 +71,8 @@ def rollup_doc(rng, depth, rows, texts, dbl, drop, gaps, ru_every_line):
     return C.scc_document(lines)
 
 
-def painton_doc(rng, rowsets, dbl, drop, gaps):
-    lines, t = [], 40
+def painton_doc(rng, rowsets, dbl, drop, gaps, t0=40):
+    lines, t = [], t0
     ctl = lambda w: [w, w] if dbl else [w]
     for i, rows in enumerate(rowsets):
         ws = ctl(C.ctrl("RDC"))
@@ -111,9 +112,10 @@ def bounded(ctx, b):
         dbl, drop = rng.choice([False, True]), rng.choice([False, True])
         gaps = [rng.choice([0, 3, 30, 90]) for _ in range(k)]
         every = rng.choice([True, False])
+        t0 = rng.choice([0, 0, 1, 40, 40, 1799, 107892])          # a program may start at timecode zero
 
-        def one(depth=depth, rows=rows, texts=texts, dbl=dbl, drop=drop, gaps=gaps, every=every):
-            doc = rollup_doc(rng, depth, rows, texts, dbl, drop, gaps, every)
+        def one(depth=depth, rows=rows, texts=texts, dbl=dbl, drop=drop, gaps=gaps, every=every, t0=t0):
+            doc = rollup_doc(rng, depth, rows, texts, dbl, drop, gaps, every, t0)
             caps = _SHARED_READER.read(doc).get_captions("en-US")
             ok, d = check_captions(caps, texts)
             if not ok:
@@ -122,7 +124,7 @@ def bounded(ctx, b):
                 if a.end != b_.start:
                     return False, {"caption_does_not_end_when_the_next_begins": (a.end, b_.start), "doc": doc[:600]}
             return True, None
-        b.guard(("rollup", i), one, sample={"mode": "roll-up", "depth": depth, "rows": rows, "texts": texts, "doubled": dbl, "drop": drop, "ru_on_every_line": every})
+        b.guard(("rollup", i), one, sample={"mode": "roll-up", "depth": depth, "rows": rows, "texts": texts, "doubled": dbl, "drop": drop, "ru_on_every_line": every, "first_frame": t0})
     for i in range(n // 2):
         k = rng.choice([1, 2, 3])
         rowsets = []
@@ -134,13 +136,14 @@ def bounded(ctx, b):
             rowsets.append([(r, rng.choice(TEXTS)) for r in rs if r <= 15])
         dbl, drop = rng.choice([False, True]), rng.choice([False, True])
         gaps = [rng.choice([0, 3, 30, 90]) for _ in range(k)]
+        t0 = rng.choice([0, 0, 1, 40, 40, 1799, 107892])
 
-        def two(rowsets=rowsets, dbl=dbl, drop=drop, gaps=gaps):
-            doc = painton_doc(rng, rowsets, dbl, drop, gaps)
+        def two(rowsets=rowsets, dbl=dbl, drop=drop, gaps=gaps, t0=t0):
+            doc = painton_doc(rng, rowsets, dbl, drop, gaps, t0)
             caps = _SHARED_READER.read(doc).get_captions("en-US")
             ok, d = check_captions(caps, [t for rows in rowsets for _, t in rows])
             return ok, (dict(d, doc=doc[:600]) if d else None)
-        b.guard(("painton", i), two, sample={"mode": "paint-on", "rows": [[r for r, _ in rows] for rows in rowsets], "doubled": dbl, "drop": drop})
+        b.guard(("painton", i), two, sample={"mode": "paint-on", "rows": [[r for r, _ in rows] for rows in rowsets], "doubled": dbl, "drop": drop, "first_frame": t0})
     # timecodes crossing an hour
     for drop in (True, False):
         def three(drop=drop):
